@@ -1,5 +1,6 @@
 import PV.Lemmas.UThread
 import PV.Lemmas.UThreadOwners
+import PV.Lemmas.UThreadRefine
 /-!
 # C05 — threads: join / exit code, reference count, TLS destructors
 
@@ -24,6 +25,8 @@ Reading guide (property text → theorem)
 * `p_uthread_local_free` (repaired: deletes the native key, frees its block) → `local_free_releases_native_key`,
   `native_release_once`; source-shape obligations of the F10 repair → `proxy_checks_its_slot`.
 * creation handshake → `fields_written_before_start`.
+* the independent executable reference `PV/Spec/UThread.lean` (the spec column of the differential run) answers
+  exactly as the machine does → `spec_refinement_step`, `spec_refinement`, `spec_refinement_disciplined`.
 * references attributed to the threads that hold them (`PV.Model.UThreadOwners`) → `user_refs_are_held`,
   `refcount_is_outstanding_references`, `per_thread_discipline_implies_pooled`, `no_use_after_free_per_thread`.
 -/
@@ -345,6 +348,36 @@ theorem tls_uses_published_key {s s' : State} (hr : Reach s) :
 
 
 
+
+/-! ## the independent reference (`PV.Spec.UThread`) answers as the machine does -/
+
+open PV.UThreadSpec in
+/-- one event: from related states (`Abs`: the reference's handle table, thread→handle map, key table and cells
+    are the machine's, seen through `absH` / `selfOf` / `cellOf`) an event the machine accepts leads to related
+    states, and the API-visible answer — returned ids / join code / `get_local` value, live handles, handles
+    released, notifier calls (sorted) — is the same on both sides -/
+theorem spec_refinement_step {s s' : State} {sp : S} {e : Ev} (hr : Reach s) (ab : Abs s sp) (hs : step s e = .ok s') :
+    Abs s' (specStep sp e).1 ∧ obsM s e s' = (specStep sp e).2 :=
+  refine_step hr ab hs
+
+open PV.UThreadSpec in
+/-- every history, from the initial states: as far as the machine accepts the events the reference gives the
+    same answers, and if the machine accepts all of them the two answer lists are equal (so the `SPECDIFF`
+    column of the driver is empty on every history that does not fault) -/
+theorem spec_refinement (es : List Ev) :
+    obsRun init es = (specRun {} es).take (obsRun init es).length ∧
+    (∀ s', run init es = .ok s' → obsRun init es = specRun {} es) := by
+  have := refine_run es Reach.init Abs.init
+  exact ⟨this.1, fun s' h => (this.2 s' h).1⟩
+
+open PV.UThreadSpec in
+/-- in particular for histories that obey the reference discipline: they never fault on a handle
+    (`no_use_after_free_run`), and wherever they are enabled the reference agrees -/
+theorem spec_refinement_disciplined (es : List Ev) (hd : Disciplined init es) :
+    (∀ h, run init es ≠ .error (.useAfterFree h)) ∧
+    obsRun init es = (specRun {} es).take (obsRun init es).length :=
+  ⟨no_use_after_free_run .init hd, (spec_refinement es).1⟩
+
 /-! ## references attributed to the threads that hold them -/
 
 /-- along histories in which every thread uses only its own references the pooled ghost counter of a
@@ -495,5 +528,11 @@ example : checkDiscT ginit demo = true := by rfl
 example : (match grun ginit (demo.take 11) with
     | .ok g => some (g.owns 0 0, g.owns 0 1, g.owns 1 0, heldBy g 0, (g.s.hdl 0).refCount)
     | .error _ => none) = some (1, 1, 0, 1, 2) := by rfl
+
+/-- the reference on `demo`: the same 25 answers as the machine, e.g. the last three (thread 2 ends: handle 1
+    released, notifier for 7; join gives −3; last unref releases handle 0) -/
+example : PV.UThreadSpec.obsRun init demo = PV.UThreadSpec.specRun {} demo := by rfl
+example : ((PV.UThreadSpec.specRun {} demo).drop 22).map (fun o => (o.ret, o.live, o.freed, o.dtor)) =
+    [([], [0], [1], [(2, 1, 7)]), ([-3], [0], [], []), ([], [], [0], [])] := by rfl
 
 end PV.UThread
